@@ -1295,6 +1295,15 @@ def run_histories(ctx, exe, n, with_cells=True):
                       gi.solution(ctx.rng, 2) + "END\n", "@LOADSTR_BAD", gi.solution(ctx.rng, 3) + "END\n"]
             kinds = ["nodb", "load", "plain", "load", "nodb", "load", "nodb"]
             forced = "allon"
+        elif i == 4:
+            # forced: DUMP -append before a reload of the database, a plain DUMP after it, both dump sinks on (the append flag
+            # of the earlier session must not survive LoadDatabase: file = string)
+            inputs = [gi.solution(ctx.rng, 1) + "DUMP\n -solution 1\n -append true\nEND\n",
+                      gi.solution(ctx.rng, 2) + "DUMP\n -solution 2\n -append true\nEND\n",
+                      ctx.rng.choice(["@LOAD_OK", "@LOAD_MISSING"]), "@LOAD_OK",
+                      gi.solution(ctx.rng, 1) + "DUMP\n -solution 1\nEND\n", gi.solution(ctx.rng, 2) + "END\n"]
+            kinds = ["dump", "dump", "load", "load", "dump", "plain"]
+            forced = "dumpon"
         if i % 7 == 3 and i != 3:
             # forced: definitions of several blocks in call 1, no block in call 2 (the re-open path of do_run)
             inputs[1:2] = [gi.solution(ctx.rng, 50) + "END\n"]
@@ -1311,6 +1320,11 @@ def run_histories(ctx, exe, n, with_cells=True):
                 inputs += [ctx.rng.choice(["@LOAD_MISSING", "@LOADSTR_BAD"])] + [gi.solution(ctx.rng, 60) + "END\n"] * ctx.rng.randint(0, 2)
                 if ctx.rng.random() < 0.7:
                     inputs += ["@LOAD_OK"]
+                if ctx.rng.random() < 0.5:
+                    # a DUMP -append in the session before the (re)load, a plain DUMP in the session after it
+                    inputs.insert(len(inputs) - (2 if inputs[-1] == "@LOAD_OK" else 1) - sum(1 for x in inputs if x.startswith("SOLUTION 60")),
+                                  gi.solution(ctx.rng, 70) + "DUMP\n -solution 70\n -append true\nEND\n")
+                    seg2 = [gi.solution(ctx.rng, 71) + "DUMP\n -solution 71\nEND\n"] + seg2
             if inputs[-1] == "@LOAD_OK":
                 inputs += seg2
             kinds = [("load" if x in SPECIAL else "seg") for x in inputs]
@@ -1327,6 +1341,8 @@ def run_histories(ctx, exe, n, with_cells=True):
                 prev["cur"] = 1
             elif forced == "allon":
                 prev["out"] = prev["log"] = prev["err"] = (True, True)
+            elif forced == "dumpon":
+                prev["dump"] = (True, True)
             cfgs.append(prev)
         names = {}
         if ctx.rng.random() < 0.3:
